@@ -155,6 +155,10 @@ site("DA_BLOCK", DA, r"^const BLOCK_SIZE", r"const BLOCK_SIZE: usize = (\w+);")
 site("DA_SUBBLOCK", DA, r"^const SUBBLOCK_SIZE", r"const SUBBLOCK_SIZE: usize = (\w+);")
 site("DA_MAX_DIST", DA, r"^const MAX_IN_BLOCK_DISTACE", r"const MAX_IN_BLOCK_DISTACE: usize = ([^;]*);")
 
+# ---- quadwt/mod.rs, huffqwt.rs: prefetch sample rate -----------------------------------
+site("PFS_SHIFT", "src/quadwt/mod.rs", r"pub fn new\(sequence: &mut \[T\]\) -> Self", r"PrefetchSupport::new\(&qv, (\w+)\);")
+site("PFS_SHIFT_HQ", "src/quadwt/huffqwt.rs", r"pub fn new\(sequence: &mut \[T\]\) -> Self", r"PrefetchSupport::new\(&qv, (\w+)\);")
+
 
 def gen_consts():
     out = ["(* GENERATED by tools/gen_from_src.py from /repo sources. Do not edit. *)",
